@@ -69,12 +69,17 @@ structure SWCfg where
   withExtras : Bool            -- created_by, key/value metadata, unknown thrift fields
   padv : Nat                   -- value used to pad the last bit-packed group (must fit the width)
   noNullCount : Bool := false  -- statistics carry min/max only (`null_count` is an optional member)
+  fileOffMode : Nat := 0       -- ColumnChunk.file_offset (deprecated, readers must not rely on it): 0 = start of the chunk, 1 = zero, 2 = just past the chunk
 
 /-- the statistics the spec writer puts into a page header (when it writes any): those of the page,
 with the optional `null_count` member left out when `noNullCount` -/
 def SWCfg.pageStatsResult (cfg : SWCfg) (c : Col) (es : List (Entry Bytes)) : Option Nat × Option Bytes × Option Bytes :=
   let r := (pageStats c es).result c.ty c.isRequired
   if cfg.noNullCount then (none, r.2) else r
+
+/-- the value stored in the deprecated `ColumnChunk.file_offset` -/
+def SWCfg.fileOff (cfg : SWCfg) (pos len : Nat) : Nat :=
+  if cfg.fileOffMode = 1 then 0 else if cfg.fileOffMode = 2 then pos + len else pos
 
 inductive Mutation
   | none
@@ -179,7 +184,7 @@ def specWriteLog (cfg : SWCfg) (compress : Nat → Bytes → Bytes) (mu0 : Optio
                                (4, .int 5 codec'), (5, .int 6 nv), (6, .int 6 ((bytes.length : Int) + delta)), (7, .int 6 bytes.length), (9, .int 6 pos)] ++
                               (if cfg.withExtras then [(100, .int 6 5)] else []))
       let (ts, tl, lg2, cs) := chunks rgi recs rest (ci + 1) cs (pos + bytes.length)
-      (TVal.struct [(2, .int 6 pos), (3, md)] :: ts, bytes ++ tl, lg ++ lg2, cs)
+      (TVal.struct [(2, .int 6 (cfg.fileOff pos bytes.length)), (3, md)] :: ts, bytes ++ tl, lg ++ lg2, cs)
   let rec groups : List (List Rec) → Nat → Choices → Nat → List TVal × Bytes × List (Nat × Bytes)
     | [], _, _, _ => ([], [], [])
     | recs :: rest, rgi, cs, pos =>
